@@ -4,6 +4,7 @@ import Feox.Drv.Kv
 import Feox.Drv.Cache
 import Feox.Drv.Proto
 import Feox.Drv.Conc
+import Feox.Drv.Pin
 /-! `feoxdrv` — the Lean side of the correspondence check: reads one operation per line on
 stdin, runs the executable models, prints one answer line per input line.  Imports models
 only (no Mathlib, no proof files), so it links as a native executable. -/
@@ -15,6 +16,7 @@ structure Drv where
   cache : Cache.State := Cache.mkState 1 0 (fun _ => 0)
   dur : Drv.ProtoDrv.St := {}
   conc : Drv.ConcDrv.St := {}
+  pin : Conc.Pin.State := {}
 
 def stepLine (d : Drv) (line : String) : IO (Drv × String) := do
   match (line.trimAscii.toString.splitOn " ").filter (· ≠ "") with
@@ -33,6 +35,10 @@ def stepLine (d : Drv) (line : String) : IO (Drv × String) := do
   | "conc" :: rest =>
     match Drv.ConcDrv.handle d.conc rest with
     | some (s, out) => pure ({ d with conc := s }, out)
+    | none => pure (d, "bad-op")
+  | "pin" :: rest =>
+    match Drv.PinDrv.handle d.pin rest with
+    | some (s, out) => pure ({ d with pin := s }, out)
     | none => pure (d, "bad-op")
   | "shards" :: rest =>
     match Drv.ProtoDrv.handleShards rest with
